@@ -308,7 +308,8 @@ int main(int argc, char** argv) {
       return s.str(); };
     auto report = [&](const char* entry, unsigned long idx, int r, const std::string& got, const std::string& want) {
       ++nprint;
-      if (r != 0 || got != want) { ++nbad; std::printf("N|%s|%lu|%d|%s|%s\n", entry, idx, r, cif::esc(got).c_str(), cif::esc(want).c_str()); } };
+      if (r != 0 || got != want) { ++nbad; std::printf("N|%s|%lu|%d|%s|%s|%s\n", entry, idx, r, cif::esc(got).c_str(), cif::esc(want).c_str(),
+                                                       (r == 0 && got == want + "\n") ? "trailing-newline-only" : "text"); } };
     auto via_file = [&](std::function<int(FILE*)> f, int& r) -> std::string {
       char* b = 0; size_t l = 0; FILE* fp = open_memstream(&b, &l); r = f(fp); fclose(fp); std::string s(b, l); free(b); return s; };
     auto via_stdout = [&](std::function<int()> f, int& r) -> std::string {
